@@ -22,8 +22,17 @@ type c13Pool struct {
 	mk    []func() ap.Item
 }
 
-func c13MakePool(n int) c13Pool {
-	id := func(i int) ap.IRI { return ap.IRI(fmt.Sprintf("https://example.com/p%d", i)) }
+// c13Tricky are pairwise distinct ids that differ only inside an IPv6 literal, in the port after one, or in a trailing slash of
+// a query value: "distinct" must not depend on how cleverly the authority or the query is split.
+var c13Tricky = []ap.IRI{"https://[2001:db8::1]/a", "https://[2001:db8::2]/a", "https://[2001:db8::1]:8443/a", "https://[2001:db8::1]:9443/a", "https://example.com/s?dir=/in/"}
+
+func c13MakePool(n int, tricky bool) c13Pool {
+	id := func(i int) ap.IRI {
+		if tricky {
+			return c13Tricky[i]
+		}
+		return ap.IRI(fmt.Sprintf("https://example.com/p%d", i))
+	}
 	all := []struct {
 		name string
 		mk   func() ap.Item
@@ -321,20 +330,23 @@ func c13Scale(c *engine.Ctx) {
 
 func c13Run(c *engine.Ctx) {
 	c13Scale(c)
-	type cfg struct{ pool, depth int }
-	cfgs := []cfg{{5, 3}, {4, 4}}
+	type cfg struct {
+		pool, depth int
+		tricky      bool
+	}
+	cfgs := []cfg{{5, 3, false}, {4, 4, false}, {5, 3, true}}
 	if !c.Quick() {
-		cfgs = []cfg{{4, 5}, {5, 4}}
+		cfgs = []cfg{{4, 5, false}, {5, 4, false}, {5, 4, true}}
 	}
 	for _, cf := range cfgs {
-		pool := c13MakePool(cf.pool)
+		pool := c13MakePool(cf.pool, cf.tricky)
 		for _, kind := range c13Kinds {
 			ops := c13Ops(cf.pool, kind.hasRemove)
 			for _, start := range []string{"empty", "pre"} {
 				for _, o1 := range ops {
 					kind, start, o1, cf := kind, start, o1, cf
 					c.Do("C13|"+kind.name, func() string {
-						return fmt.Sprintf("%s from %s start, pool of %d: %s; then every continuation up to depth %d", kind.name, start, cf.pool, o1.str(pool), cf.depth)
+						return fmt.Sprintf("%s from %s start, pool of %d (ids differing only inside the authority: %v): %s; then every continuation up to depth %d", kind.name, start, cf.pool, cf.tricky, o1.str(pool), cf.depth)
 					}, func(t *engine.T) {
 						var n int64
 						run := func(seq []c13Op) {
